@@ -1184,6 +1184,12 @@ func (x *c18) remoteReplies(r *gen.Rand, w *world, n int) {
 	directed := [][]byte{[]byte(`[200]`), []byte(`[]`), []byte(`[200,{}]`), []byte(`[200,null]`), []byte(`[404]`), []byte(`[200,` + string(good) + `]`), []byte(`[200,` + string(good) + `,3]`), []byte(`["200"]`), []byte(`[null]`), []byte(`[[]]`),
 		[]byte(`{}`), []byte(`null`), []byte(`"x"`), []byte(`5`), nil, []byte(`[200,{"state":5}]`), []byte(`{"state":null,"auth_chain":null,"event":null}`), []byte(`{"event":"` + `{}` + `"}`), []byte(`{"pdus":[null]}`), []byte(`{"pdus":5}`),
 		[]byte(`{"events":[null,5,"x"]}`), []byte(`{"room_version":5,"event":null}`), []byte(`{"room_version":"10","event":[]}`), good, []byte(strings.Repeat("[", 5000))}
+	// make_join templates whose reference lists have every odd shape (tenth seeding round, C18-T: an empty pair)
+	for _, refs := range []string{`[["$a:b",{"sha256":"x"}],[]]`, `[[]]`, `[[5,{}]]`, `[null]`, `[""]`, `[[""]]`, `[["$a:b"]]`, `["$a:b",[]]`, `[[[]]]`, `[{}]`, `"x"`, `5`, `null`, `[[null,null]]`, `[["$a:b",5]]`} {
+		for _, member := range []string{"prev_events", "auth_events"} {
+			directed = append(directed, []byte(`{"room_version":"1","event":{"type":"m.room.member","state_key":"`+authUsers[2]+`","sender":"`+authUsers[2]+`","room_id":"`+w.roomID+`","content":{"membership":"join"},"depth":5,"`+member+`":`+refs+`}}`))
+		}
+	}
 	run := func(name string, sc script) {
 		c.Case("remote-reply:"+name, map[string]any{"first_request_answered_404": sc.first404, "body_hex": fmt.Sprintf("%x", truncateBytes(sc.body, 200))}, func() {
 			c.NontrivialBytes([]byte(fmt.Sprintf("remote-reply|%v|%x", sc.first404, truncateBytes(sc.body, 96))))
@@ -1202,8 +1208,16 @@ func (x *c18) remoteReplies(r *gen.Rand, w *world, n int) {
 			do("SendKnock", func(ctx context.Context) { _, _ = fc.SendKnock(ctx, "origin.example", "remote.example", join) })
 			do("MakeJoin", func(ctx context.Context) {
 				if res, err := fc.MakeJoin(ctx, "origin.example", "remote.example", w.roomID, authUsers[2]); err == nil {
-					_ = res.GetJoinEvent()
 					_ = res.GetRoomVersion()
+					// the template is what the joining server builds its join event from (PerformJoin does): in the old
+					// event format the references are pairs, in the new one IDs - whatever the remote put there
+					proto := res.GetJoinEvent()
+					for _, bv := range []gmsl.RoomVersion{"1", "2", "10", "12"} {
+						p2 := proto
+						if impl, err := gmsl.GetRoomVersion(bv); err == nil {
+							_, _ = impl.NewEventBuilderFromProtoEvent(&p2).Build(baseTime, "origin.example", gmsl.KeyID(id.KeyID), id.Priv)
+						}
+					}
 				}
 			})
 			do("MakeLeave", func(ctx context.Context) { _, _ = fc.MakeLeave(ctx, "origin.example", "remote.example", w.roomID, authUsers[2]) })
